@@ -453,6 +453,12 @@ where
     }
 
     fn get(&self, idx: usize) -> Option<FieldType<'a>> {
+        // `ComputedArray::get` answers every index when the items are
+        // zero-sized; the traversal (which walks until the first `None`)
+        // is bounded by `len()`.
+        if idx >= self.array.len() {
+            return None;
+        }
         self.array
             .get(idx)
             .ok()
@@ -861,6 +867,20 @@ mod tests {
         let printed = format!("{paint:?}");
         assert!(printed.contains("PaintSolid"));
         assert!(!printed.contains(".."));
+    }
+
+    /// A computed-size record array with zero-sized items (gvar shared
+    /// tuples with axisCount 0) used to be printed without end: `get`
+    /// answers every index for such an array.
+    #[test]
+    fn debug_output_of_zero_sized_records_ends() {
+        let data: [u8; 22] = [
+            0, 1, 0, 0, 0, 0, 0, 3, 0, 0, 0, 20, 0, 0, 0, 0, 0, 0, 0, 20, 0, 0,
+        ];
+        let gvar = crate::tables::gvar::Gvar::read(FontData::new(&data)).unwrap();
+        assert!(gvar.shared_tuples().unwrap().tuples().get(5).is_ok());
+        let printed = format!("{gvar:?}");
+        assert!(printed.contains("Gvar"));
     }
 
     /// Offsets that share their target used to be printed once per path:
